@@ -532,6 +532,93 @@ def split_cases(lines):
     return cases
 
 
+def gen_flatten(rng, n):
+    """F lines: vars_flatten on random shapes / subarrays (1-4 dims, strides, element sizes), any buffer address"""
+    lines = []
+    for _ in range(n):
+        nd = rng.range(1, 4)
+        el = rng.choice([1, 2, 4, 8])
+        dl = [rng.range(1, 9) for _ in range(nd)]
+        st, ct, sr = [], [], []
+        ones = rng.chance(1, 3)
+        for d in range(nd):
+            k = 1 if ones else rng.range(1, 3)
+            s = rng.below(dl[d]) if rng.chance(1, 2) else 0
+            c = rng.range(1, (dl[d] - 1 - s) // k + 1)
+            if rng.chance(1, 2):
+                c = (dl[d] - 1 - s) // k + 1          # as many planes as fit (>= 3 planes with a stride are common)
+            st.append(s); ct.append(c); sr.append(k)
+        lines.append('F %d %d %d %d %s' % (nd, el, rng.below(5000), rng.range(-300, 300),
+                                           ' '.join(str(x) for x in dl + st + ct + sr)))
+    return lines
+
+
+def gen_bufruns(rng, n):
+    """G lines: requests (buffer address, size) for the buffer-type loop of mgetput: runs of adjacent buffers,
+    jumps forwards and backwards, a buffer adjacent to the START of the current run, equal addresses"""
+    lines = []
+    for _ in range(n):
+        m = rng.range(2, 9)
+        a = rng.range(-2000, 2000)
+        reqs = []
+        runstart = a
+        for i in range(m):
+            sz = rng.choice([1, 2, 4, 4, 8, 16, 24])
+            reqs.append((a, sz))
+            r = rng.below(10)
+            if r < 5:
+                a = a + sz                       # adjacent: extends the run
+            elif r < 7:
+                a = a + sz + rng.range(1, 64); runstart = a
+            elif r < 8:
+                a = runstart + sz; runstart = a   # where the run would end if it had only its first request
+            elif r < 9:
+                a = a - rng.range(1, 200); runstart = a
+            else:
+                a = runstart                      # back to the run start
+        lines.append('G %d %s' % (m, ' '.join('%d %d' % r for r in reqs)))
+    return lines
+
+
+def unit_spec_check(req, ans):
+    """F: the segments must expand to the row-major element offsets of the subarray, with consecutive buffer addresses;
+       G: the blocks must cover the bytes of the requests' buffers in request order.  Returns a description or None."""
+    tk = req.split()
+    try:
+        if tk[0] == 'F':
+            nd, el, offset, baddr = int(tk[1]), int(tk[2]), int(tk[3]), int(tk[4])
+            v = [int(x) for x in tk[5:]]
+            dl, st, ct, sr = v[:nd], v[nd:2 * nd], v[2 * nd:3 * nd], v[3 * nd:4 * nd]
+            want = []
+
+            def rec(d, lin):
+                if d == nd:
+                    want.append(offset + lin * el); return
+                for i in range(ct[d]):
+                    rec(d + 1, lin * dl[d] + st[d] + i * sr[d])
+            rec(0, 0)
+            segs = [tuple(int(x) for x in s.split(',')) for s in ans.split()[2:]]
+            got, bufs = [], []
+            for (o, ln, b) in segs:
+                for j in range(ln // el):
+                    got.append(o + j * el); bufs.append(b + j * el)
+            if got != want:
+                return 'vars_flatten: element offsets %s..., specified %s...' % (got[:8], want[:8])
+            if bufs != [baddr + j * el for j in range(len(want))]:
+                return 'vars_flatten: buffer addresses of the segments are not consecutive: %s...' % bufs[:8]
+        elif tk[0] == 'G':
+            v = [int(x) for x in tk[2:]]
+            reqs = list(zip(v[0::2], v[1::2]))
+            want = [a + j for a, sz in reqs for j in range(sz)]
+            blocks = [tuple(int(x) for x in s.split(',')) for s in ans.split()[2:]]
+            got = [reqs[0][0] + d + j for d, ln in blocks for j in range(ln)]
+            if got != want:
+                return 'mgetput buffer type covers bytes %s..., the requests own %s...' % (got[:10], want[:10])
+    except Exception as ex:
+        return 'unparsable answer %r (%s)' % (ans, ex)
+    return None
+
+
 def gen_unit(rng, n):
     lines = []
     for k in range(n):
@@ -561,7 +648,7 @@ def gen_unit(rng, n):
 
 LEAN_FILES = ['PnVerif/Model/Merge.lean', 'PnVerif/Model/ReqQueue.lean', 'PnVerif/Lemmas/MergeLemmas.lean',
               'PnVerif/Lemmas/ReqQueueLemmas.lean', 'PnVerif/Lemmas/ReqQueueWait.lean', 'PnVerif/Lemmas/ReqQueueInv.lean',
-              'PnVerif/Lemmas/ReqQueueFixed.lean',
+              'PnVerif/Lemmas/ReqQueueFixed.lean', 'PnVerif/Model/Flatten.lean', 'PnVerif/Lemmas/FlattenLemmas.lean',
               'PnVerif/Props/C02.lean', 'Driver/C02.lean']
 
 
@@ -572,7 +659,7 @@ def run_check(tier, seed):
         'MPI semantics assumed (Model/Merge.lean `transfer`): a read/write with an hindexed file type and an hindexed buffer type moves the k-th byte of the flattened buffer type to/from the k-th byte of the flattened file type',
         'the queue model abstracts the fields of NC_lead_req/NC_req that the queue code only copies (buffers, start/count arrays, datatypes) to opaque tags; the put and the get copy of every loop share one model function and both are driven by the harness',
         'glibc qsort is stable for the array sizes used (merge sort); the merge theorems hold for any order of equal offsets',
-        'grouping of requests into interleaved / non-interleaved groups (req_aggregation), vars_flatten and the MPI datatype construction of non-interleaved groups are covered by the blocking-call oracle only, not by a Lean model',
+        'grouping of requests into interleaved / non-interleaved groups (req_aggregation) and the FILE-type construction of non-interleaved groups (construct_filetypes) are covered by the blocking-call oracle only; vars_flatten and the buffer-type loop of mgetput are modelled (Model/Flatten.lean) under the side conditions stated in the theorems (all counts >= 1, no request flagged NC_REQ_SKIP)',
         'file layout (variable begin offsets, record size) is an input of the queue model, read from the implementation and checked against the script header',
     ]
     V.cov['trusted_base'] = TRUSTED_BASE_COMMON + ['harness/c02_nb.c, harness/c02_unit.c and the generators in checks/c02.py (differential, not proof)',
@@ -616,10 +703,13 @@ def run_check(tier, seed):
             return V.finish()
         ulines = ['M 2 0 4 0 0 4 100', 'M 3 0 10 0 2 10 50 5 8 200', 'M 3 10 4 0 0 4 4 4 6 8', 'M 4 0 4 0 4 4 4 8 4 100 12 4 104']
         ulines += gen_unit(rng, 3000 if tier == 'thorough' else 400)
+        ulines += ['F 2 4 100 0 3 5 0 1 2 2 2 2', 'F 3 2 1000 -16 4 3 5 1 0 1 2 2 3 2 2 1', 'G 5 1000 8 1008 4 2000 4 1012 4 1016 4']
+        ulines += gen_flatten(rng, 3000 if tier == 'thorough' else 400)
+        ulines += gen_bufruns(rng, 2000 if tier == 'thorough' else 300)
         uin = '\n'.join(ulines) + '\n'
-        rc, uo, ue = mpirun(1, [uexe], stdin=uin, timeout=120)
+        rc, uo, ue = mpirun(1, [uexe, wd], stdin=uin, timeout=300)
         pl = subprocess.run([drv, 'unit'], input=uin, stdout=subprocess.PIPE, stderr=subprocess.PIPE, text=True) if os.path.exists(drv) else None
-        uo_l = [l for l in uo.split('\n') if l.startswith('M ') or l.startswith('bad')]
+        uo_l = [l for l in uo.split('\n') if l[:2] in ('M ', 'F ', 'G ') or l.startswith('bad')]
         ul_l = pl.stdout.split('\n') if pl else []
         if rc != 0 or len(uo_l) < len(ulines):
             tie_diffs.append(('unit', 'harness rc=%s lines=%d/%d %s' % (rc, len(uo_l), len(ulines), ue[-300:])))
@@ -627,14 +717,29 @@ def run_check(tier, seed):
             for k, l in enumerate(ulines):
                 evaluations += 1
                 a = uo_l[k].strip(); b = ul_l[k].strip() if k < len(ul_l) else '<missing>'
-                nin = int(l.split()[1]); nout = int(a.split()[1]) if a.startswith('M ') else -1
-                if nout != nin:
-                    nontrivial.add(l); dist['unit-merged'] = dist.get('unit-merged', 0) + 1
+                op = l[0]
+                nin = int(l.split()[1]); nout = int(a.split()[1]) if a[:2] in ('M ', 'F ', 'G ') else -1
+                if op == 'M':
+                    if nout != nin:
+                        nontrivial.add(l); dist['unit-merged'] = dist.get('unit-merged', 0) + 1
+                    else:
+                        dist['unit-unchanged'] = dist.get('unit-unchanged', 0) + 1
+                elif op == 'F':
+                    dist['flatten'] = dist.get('flatten', 0) + 1
+                    if nin >= 2 and nout >= 2:
+                        nontrivial.add(l); dist['flatten-multidim-multiseg'] = dist.get('flatten-multidim-multiseg', 0) + 1
                 else:
-                    dist['unit-unchanged'] = dist.get('unit-unchanged', 0) + 1
+                    dist['bufruns'] = dist.get('bufruns', 0) + 1
+                    if 1 < nout < nin:
+                        nontrivial.add(l); dist['bufruns-partly-fused'] = dist.get('bufruns-partly-fused', 0) + 1
                 if a != b:
                     tie_diffs.append(('unit', l, a, b))
-        log('[S4] unit stream: %d segment lists, %d differences' % (len(ulines), len(tie_diffs)))
+                # the property's own oracle on the implementation's answer (specification side, computed here)
+                why = unit_spec_check(l, a)
+                if why:
+                    fails.append(('unit-' + ('vars_flatten' if op == 'F' else 'mgetput-buftype') + '-wrong', why,
+                                  dict(request=l, implementation=a, model=b, harness='harness/c02_unit.c')))
+        log('[S4] unit stream: %d requests (merge_requests, vars_flatten, mgetput buffer type), %d differences' % (len(ulines), len(tie_diffs)))
         # ---- S4 nb stream
         try:
             nexe = cc(tree, [os.path.join(VERIF, 'harness/c02_nb.c')], os.path.join(wd, 'c02_nb'), extra=inc)
@@ -756,11 +861,11 @@ def run_check(tier, seed):
         V.cov['evaluations'] = evaluations
         V.cov['distinct_nontrivial'] = len(nontrivial)
         V.cov['traces_validated_against_impl'] = evaluations - len(tie_diffs)
-        V.cov['rule'] = ('unit: random off-len-buf lists (disjoint, overlapping, interleaved columns, identical ranges, shuffled) through merge_requests+type_create_off_len and the model; '
+        V.cov['rule'] = ('unit: random off-len-buf lists (disjoint, overlapping, interleaved columns, identical ranges, shuffled) through merge_requests+type_create_off_len and the model; vars_flatten on random 1-4 dimensional shapes/subarrays/strides/element sizes; the buffer-type loop of mgetput (called on a scratch file, MPI_Type_create_hindexed intercepted) on random runs of adjacent / non-adjacent buffers; '
                          'nb: type-directed random cases over 8 variables (fixed/record, scalar, 5 external types): iput/iget/bput x vara/vars/varm(imap)/varn x native/converting/derived-type buffers, '
                          'write-disjoint, completed by wait/wait_all/cancel with explicit shuffled id lists (NULL, unknown, repeated ids in single-rank cases), NC_REQ_ALL/GET/PUT, 1-3 ranks; '
                          'every result line (return code, ids, statuses, pending count, full queue dump of struct NC) is diffed with the model, data compared with blocking calls on a second file. '
-                         'non-trivial = unit list that the merge changes, wait/cancel of a proper non-empty subset of the pending set, or a request split into several non-lead requests; distinct by (case, op)')
+                         'non-trivial = unit list that the merge changes, a flatten request with >= 2 dimensions and >= 2 segments, a buffer list that is partly fused, wait/cancel of a proper non-empty subset of the pending set, or a request split into several non-lead requests; distinct by (case, op)')
         V.cov['distribution'] = dist
         V.cov['samples'] = samples + [ulines[4], ulines[5]]
         # ---- S4m API-level "mix" programs (checks/apigen.gen_mix_program): several interleaving strided nonblocking requests per
